@@ -90,7 +90,7 @@ def check(fx, rep, tier):
     if not rep.anchor("R02.1", bool(entries), "the one-call entry point Extractor::analyze"):
         return rep.finish("anchor lost", "n/a")
     pipe = cg.reachable(entries)
-    rows = {r[0]: r for r in tables.read("order_sources.tsv")}
+    rows = tables.Keyed("order_sources.tsv", fx)
     found = {}
     for name in sorted(pipe):
         b = fx.body(name)
